@@ -32,8 +32,8 @@ func (r *Rng) Intn(n int) int {
 	}
 	return int(r.Next() % uint64(n))
 }
-func (r *Rng) Bool(pct int) bool { return r.Intn(100) < pct }
-func (r *Rng) Split() *Rng       { return NewRng(r.Next()) }
+func (r *Rng) Bool(pct int) bool   { return r.Intn(100) < pct }
+func (r *Rng) Split() *Rng         { return NewRng(r.Next()) }
 func Pick[T any](r *Rng, xs []T) T { return xs[r.Intn(len(xs))] }
 
 // ---------- hex ----------
@@ -224,8 +224,8 @@ type Result struct {
 
 // Mismatch describes one disagreement after shrinking and classification.
 type Mismatch struct {
-	Kind     string   `json:"kind"`     // "violation" (impl breaks the property's oracle) | "unproved" (model/impl differ, no failing input) | "known"
-	Class    string   `json:"class"`    // ledger class key for known findings / name of the correspondence
+	Kind     string   `json:"kind"`  // "violation" (impl breaks the property's oracle) | "unproved" (model/impl differ, no failing input) | "known"
+	Class    string   `json:"class"` // ledger class key for known findings / name of the correspondence
 	What     string   `json:"what"`
 	History  []string `json:"history"`
 	Impl     []string `json:"impl"`
